@@ -48,6 +48,9 @@ type Cfg struct {
 	MonitorHistory  int      `json:"monitor_history,omitempty"`
 	BasePath        string   `json:"base_path,omitempty"`
 	Lua             string   `json:"lua,omitempty"`
+	// Go listeners registered before / after the Lua host on the before-events.
+	PreHost  func(h *extension.Host) `json:"-"`
+	PostHost func(h *extension.Host) `json:"-"`
 	NoHTTP          bool     `json:"-"`
 }
 
@@ -144,12 +147,18 @@ func NewWorld(c Cfg) (*World, error) {
 	}
 	w.Conf = conf
 	w.Host = extension.NewHost()
+	if c.PreHost != nil {
+		c.PreHost(w.Host)
+	}
 	if c.Lua != "" {
 		lh, err := luahost.NewFromReader(zerolog.Nop(), w.Host, strings.NewReader(c.Lua), "generated.lua")
 		if err != nil {
 			return nil, fmt.Errorf("lua: %v", err)
 		}
 		w.Lua = lh
+	}
+	if c.PostHost != nil {
+		c.PostHost(w.Host)
 	}
 	if c.Backend == "file" {
 		w.Dir = TempDir()
